@@ -1,6 +1,778 @@
-//! C05 — not implemented yet.
-use crate::report::{Cfg, Report};
+//! C05 — matrix products follow the definition for every shape and transpose flag (DESIGN §3 C05).
+//!
+//! Events: every return (value or panic) of `matmul`, `matmul_blocked`, `xtx` and of the 64
+//! `Dot` trait methods (4 methods × 4 ownership forms × Matrix·Matrix, Matrix·Vector,
+//! Vector·Matrix, Vector·Vector).
+//! Oracle: a naive triple loop on explicitly transposed operands. Integer-valued entries
+//! (|a| ≤ 50, inner dimension ≤ 64) make every partial sum exact, so the comparison is an equality;
+//! real-valued entries use the a-priori bound γ_l·Σ|a||b| per entry against a double-double
+//! reference. Non-conformable operands must panic.
+use crate::gen::Rng;
+use crate::oracle::dd::{gamma_n, Dd};
+use crate::oracle::linref;
+use crate::report::{guard, jf, par_cases, Cfg, Hasher, Report};
+use compute::linalg::{matmul, matmul_blocked, xtx, Dot, Matrix, Vector};
+use serde_json::{json, Value};
 
-pub fn run(_cfg: &Cfg, rep: &mut Report) {
-    rep.inconclusive("monitor for C05 not implemented".to_string());
+const FLAGS: [(bool, bool); 4] = [(false, false), (true, false), (false, true), (true, true)];
+const METHODS: [&str; 4] = ["dot", "t_dot", "dot_t", "t_dot_t"];
+const FORMS: [&str; 4] = ["(S,T)", "(S,&T)", "(&S,T)", "(&S,&T)"];
+
+fn fl(ta: bool, tb: bool) -> &'static str {
+    match (ta, tb) {
+        (false, false) => "NN",
+        (true, false) => "TN",
+        (false, true) => "NT",
+        (true, true) => "TT",
+    }
+}
+
+
+// ---------------------------------------------------------------------------------------------
+// Regime / assertion tables and a per-case tally.
+//
+// Every library call is one evaluation with three or four named assertions. Under Miri each
+// `Report` map operation costs ~10 ms, so the monitor counts into flat arrays indexed by
+// (assertion, regime) and flushes them into the `Report` once per case (same numbers, same
+// signatures, first failing input kept as the replay record).
+
+const ASSERTS: [&str; 17] = [
+    "C05.matmul.no_panic", "C05.matmul.shape", "C05.matmul.entries", "C05.matmul.rejects",
+    "C05.blocked.no_panic", "C05.blocked.shape", "C05.blocked.entries", "C05.blocked.rejects", "C05.blocked.eq_matmul",
+    "C05.xtx.no_panic", "C05.xtx.shape", "C05.xtx.entries", "C05.xtx.symmetric",
+    "C05.dot.no_panic", "C05.dot.shape", "C05.dot.entries", "C05.dot.rejects",
+];
+const A_MM: usize = 0;
+const A_MM_REJECTS: usize = 3;
+const A_BL: usize = 4;
+const A_BL_REJECTS: usize = 7;
+const A_BL_EQ: usize = 8;
+const A_XTX: usize = 9;
+const A_XTX_SYM: usize = 12;
+const A_DOT: usize = 13;
+const A_DOT_REJECTS: usize = 16;
+const API: [&str; 4] = ["matmul", "blocked", "xtx", "dot"];
+fn api_of(a: usize) -> usize {
+    match a {
+        0..=3 => 0,
+        4..=8 => 1,
+        9..=12 => 2,
+        _ => 3,
+    }
+}
+
+const NREG: usize = 49;
+const R_BLOCKED: usize = 6; // + flag index
+const R_XTX: usize = 10;
+const R_NC_SMALLER: usize = 11;
+const R_NC_LARGER: usize = 12;
+const R_NC_TT: usize = 13;
+const R_NC_NOTMAT: usize = 14;
+const R_DOT: usize = 15; // + kind*4 + method; Matrix·Matrix t_dot_t (18) means ":rect"
+const R_DOT_TT_SCALAR: usize = 31;
+const R_DOT_TT_SQUARE: usize = 32;
+const R_DOT_NC: usize = 33; // + kind*4 + method
+const KINDS: [&str; 4] = ["MM", "MV", "VM", "VV"];
+
+fn regime_name(r: usize) -> String {
+    match r {
+        0..=2 => format!("flags={}", ["NN", "TN", "NT"][r]),
+        3 => "flags=TT:scalar".into(),
+        4 => "flags=TT:square".into(),
+        5 => "flags=TT:rect".into(),
+        6..=9 => format!("blocked:flags={}", ["NN", "TN", "NT", "TT"][r - 6]),
+        R_XTX => "xtx".into(),
+        R_NC_SMALLER => "nonconf:inner-smaller".into(),
+        R_NC_LARGER => "nonconf:inner-larger".into(),
+        R_NC_TT => "nonconf:TT".into(),
+        R_NC_NOTMAT => "nonconf:not-a-matrix".into(),
+        18 => "dot:MM:t_dot_t:rect".into(),
+        15..=30 => format!("dot:{}:{}", KINDS[(r - 15) / 4], METHODS[(r - 15) % 4]),
+        R_DOT_TT_SCALAR => "dot:MM:t_dot_t:scalar".into(),
+        R_DOT_TT_SQUARE => "dot:MM:t_dot_t:square".into(),
+        _ => format!("dot-nonconf:{}:{}", KINDS[(r - 33) / 4], METHODS[(r - 33) % 4]),
+    }
+}
+fn flag_index(ta: bool, tb: bool) -> usize {
+    (ta as usize) + 2 * (tb as usize)
+}
+/// Regime of a product through the non-blocked path. The both-transposed branch is a separate
+/// code path (utils.rs:438), split further by whether all three dimensions coincide.
+fn flag_regime(ta: bool, tb: bool, m: usize, l: usize, n: usize) -> usize {
+    if ta && tb {
+        if m == l && l == n {
+            if m == 1 {
+                3
+            } else {
+                4
+            }
+        } else {
+            5
+        }
+    } else {
+        flag_index(ta, tb)
+    }
+}
+
+const SEEN: [&str; 6] = ["data=int", "data=real", "dot-form=(S,T)", "dot-form=(S,&T)", "dot-form=(&S,T)", "dot-form=(&S,&T)"];
+
+struct Tally {
+    cases: [u64; NREG],
+    checks: Vec<[(u64, u64); NREG]>,
+    first: Vec<(usize, usize, Value)>,
+    seen: [u64; 6],
+    distinct: Vec<u64>,
+    worst: [[f64; 2]; 4],
+    samples: Vec<Value>,
+    bitwise: [u64; 2],
+    lean: bool,
+}
+impl Tally {
+    fn new(lean: bool) -> Self {
+        Tally { cases: [0; NREG], checks: vec![[(0, 0); NREG]; ASSERTS.len()], first: Vec::new(), seen: [0; 6], distinct: Vec::new(), worst: [[-1.0; 2]; 4], samples: Vec::new(), bitwise: [0; 2], lean }
+    }
+    fn case(&mut self, r: usize) {
+        self.cases[r] += 1;
+    }
+    fn check(&mut self, a: usize, r: usize, ok: bool, detail: &dyn Fn() -> Value) -> bool {
+        let c = &mut self.checks[a][r];
+        c.0 += 1;
+        if !ok {
+            c.1 += 1;
+            if c.1 == 1 {
+                self.first.push((a, r, detail()));
+            }
+        }
+        ok
+    }
+    /// Register a case key (api tag + shape parameters). FNV natively; a plain polynomial under Miri,
+    /// where the byte-wise hasher alone would cost 15 ms per call.
+    fn distinct(&mut self, parts: &[u64], nontrivial: bool) {
+        if nontrivial {
+            let h = if self.lean {
+                parts.iter().fold(7u64, |acc, &p| acc.wrapping_mul(1_000_003).wrapping_add(p))
+            } else {
+                parts.iter().fold(Hasher::new(), |h, &p| h.u(p)).finish()
+            };
+            self.distinct.push(h);
+        }
+    }
+    fn flush(self, rep: &mut Report) {
+        for r in 0..NREG {
+            if self.cases[r] > 0 {
+                rep.evaluations += self.cases[r];
+                rep.seen(&regime_name(r), self.cases[r]);
+            }
+        }
+        for (i, s) in SEEN.iter().enumerate() {
+            if self.seen[i] > 0 {
+                rep.seen(s, self.seen[i]);
+            }
+        }
+        let mut first = self.first;
+        for a in 0..ASSERTS.len() {
+            for r in 0..NREG {
+                let (checked, failed) = self.checks[a][r];
+                if checked == 0 {
+                    continue;
+                }
+                let mut direct_checked = checked;
+                let mut direct_failed = failed;
+                if failed > 0 {
+                    // one real `check` call creates / bumps the violation record with the replay detail
+                    let pos = first.iter().position(|(fa, fr, _)| *fa == a && *fr == r).expect("first failure kept");
+                    let (_, _, d) = first.swap_remove(pos);
+                    let regime = regime_name(r);
+                    rep.check(ASSERTS[a], &regime, false, || d);
+                    direct_checked -= 1;
+                    direct_failed -= 1;
+                    if direct_failed > 0 {
+                        if let Some(v) = rep.violations.get_mut(&format!("{}|{}", ASSERTS[a], regime)) {
+                            v.count += direct_failed;
+                        }
+                    }
+                }
+                let st = rep.assert_stat(ASSERTS[a]);
+                st.checked += direct_checked;
+                st.failed += direct_failed;
+            }
+        }
+        for h in self.distinct {
+            rep.distinct(h, true);
+        }
+        for (i, w) in self.worst.iter().enumerate() {
+            if w[0] >= 0.0 {
+                rep.note_max(&format!("worst_ratio.{}.real_entries", API[i]), w[0]);
+            }
+            if w[1] >= 0.0 {
+                rep.note_max(&format!("worst_ratio.{}.real_entries_l>=8", API[i]), w[1]);
+            }
+        }
+        if self.bitwise[0] > 0 {
+            rep.note_add("blocked_real_bitwise_equal", self.bitwise[0] as f64);
+        }
+        if self.bitwise[1] > 0 {
+            rep.note_add("blocked_real_bitwise_different", self.bitwise[1] as f64);
+        }
+        for s in self.samples {
+            rep.sample(|| s);
+        }
+    }
+}
+
+/// The harness's own transposition (row-major r×c → c×r).
+fn tr(a: &[f64], r: usize, c: usize) -> Vec<f64> {
+    let mut t = vec![0.0; a.len()];
+    for i in 0..r {
+        for j in 0..c {
+            t[j * r + i] = a[i * c + j];
+        }
+    }
+    t
+}
+
+/// What the definition demands for op(A)·op(B) on *stored* shapes (ar×ac), (br×bc).
+struct Expect {
+    m: usize,
+    l: usize,
+    n: usize,
+    /// plain f64 triple loop (exact on integer data)
+    plain: Vec<f64>,
+    /// double-double reference and entrywise bound γ_l·Σ|a||b| (real data only)
+    real: Option<(Vec<Dd>, Vec<f64>)>,
+}
+
+fn define(a: &[f64], ar: usize, ac: usize, ta: bool, b: &[f64], br: usize, bc: usize, tb: bool, real: bool) -> Option<Expect> {
+    let (m, l) = if ta { (ac, ar) } else { (ar, ac) };
+    let (lb, n) = if tb { (bc, br) } else { (br, bc) };
+    if l != lb {
+        return None;
+    }
+    let oa = if ta { tr(a, ar, ac) } else { a.to_vec() };
+    let ob = if tb { tr(b, br, bc) } else { b.to_vec() };
+    let mut plain = vec![0.0; m * n];
+    for i in 0..m {
+        for j in 0..n {
+            let mut s = 0.0;
+            for k in 0..l {
+                s += oa[i * l + k] * ob[k * n + j];
+            }
+            plain[i * n + j] = s;
+        }
+    }
+    let real = if real {
+        let r = linref::matmul_dd(&oa, &ob, m, l, n);
+        let g = gamma_n(l);
+        let bound: Vec<f64> = linref::matmul_abs(&oa, &ob, m, l, n).iter().map(|x| g * x * (1.0 + 1e-9)).collect();
+        Some((r, bound))
+    } else {
+        None
+    };
+    Some(Expect { m, l, n, plain, real })
+}
+
+/// Compare a flat result with the definition. `a0` = index of the api's `no_panic` assertion
+/// (`shape` and `entries` follow it). Returns true iff everything held.
+fn judge(t: &mut Tally, a0: usize, r: usize, got: &Result<Vec<f64>, String>, shape: Option<[usize; 2]>, e: &Expect, detail: &dyn Fn() -> Value) -> bool {
+    match got {
+        Err(_) => {
+            t.check(a0, r, false, detail);
+            false
+        }
+        Ok(v) => {
+            t.check(a0, r, true, detail);
+            let shape_ok = v.len() == e.m * e.n && shape.map_or(true, |s| s == [e.m, e.n]);
+            if !t.check(a0 + 1, r, shape_ok, detail) {
+                return false;
+            }
+            match &e.real {
+                None => {
+                    let ok = v.iter().zip(&e.plain).all(|(x, y)| x == y);
+                    t.check(a0 + 2, r, ok, detail)
+                }
+                Some((rf, bound)) => {
+                    let ratio = linref::worst_ratio(v, rf, bound);
+                    // (the defective both-transposed branch would drown the headroom figure)
+                    if ratio <= 1.0 {
+                        let w = &mut t.worst[api_of(a0)];
+                        w[0] = w[0].max(ratio);
+                        if e.l >= 8 {
+                            w[1] = w[1].max(ratio);
+                        }
+                    }
+                    t.check(a0 + 2, r, ratio <= 1.0, detail)
+                }
+            }
+        }
+    }
+}
+
+fn jres(got: &Result<Vec<f64>, String>) -> Value {
+    match got {
+        Ok(v) => json!({"len": v.len(), "data": jf(v)}),
+        Err(m) => json!({"panic": m}),
+    }
+}
+
+/// One stored-shape product through `matmul`, every requested block size of `matmul_blocked`.
+fn slice_case(t: &mut Tally, a: &[f64], ar: usize, ac: usize, b: &[f64], br: usize, bc: usize, ta: bool, tb: bool, bsizes: &[usize], real: bool) {
+    let e = define(a, ar, ac, ta, b, br, bc, tb, real).expect("conformable by construction");
+    let r = flag_regime(ta, tb, e.m, e.l, e.n);
+    t.case(r);
+    t.seen[real as usize] += 1;
+    let nontrivial = e.m * e.l * e.n > 1;
+    t.distinct(&[1, e.m as u64, e.l as u64, e.n as u64, flag_index(ta, tb) as u64, real as u64], nontrivial);
+    let got = guard(|| matmul(a, b, ar, br, ta, tb));
+    let base = |api: &str, bs: Option<usize>, g: &Result<Vec<f64>, String>| {
+        json!({"api": api, "data_kind": if real { "real (bound gamma_l*sum|a||b|)" } else { "integer (exact)" },
+               "a": jf(a), "a_stored_shape": [ar, ac], "b": jf(b), "b_stored_shape": [br, bc], "transpose_a": ta, "transpose_b": tb,
+               "bsize": bs, "observed": jres(g), "expected": {"shape": [e.m, e.n], "data": jf(&e.plain)}})
+    };
+    let mm_ok = judge(t, A_MM, r, &got, None, &e, &|| base("matmul", None, &got));
+    if t.samples.is_empty() && !t.lean {
+        t.samples.push(json!({"api": "matmul", "flags": fl(ta, tb), "m": e.m, "l": e.l, "n": e.n, "ok": mm_ok}));
+    }
+    let rb = R_BLOCKED + flag_index(ta, tb);
+    for &bs in bsizes {
+        t.case(rb);
+        if !t.lean {
+            t.distinct(&[2, e.m as u64, e.l as u64, e.n as u64, flag_index(ta, tb) as u64, bs as u64, real as u64], nontrivial);
+        }
+        let gb = guard(|| matmul_blocked(a, b, ar, br, ta, tb, bs));
+        let ok = judge(t, A_BL, rb, &gb, None, &e, &|| base("matmul_blocked", Some(bs), &gb));
+        // "the blocked variant returns the same result": only meaningful where the plain variant
+        // itself delivered the definition (its own failure is already reported above)
+        if ok && mm_ok {
+            let (x, y) = (gb.as_ref().unwrap(), got.as_ref().unwrap());
+            if real {
+                // same accumulation order in both kernels: record (not assert) whether bits agree
+                let same = x.iter().zip(y).all(|(p, q)| p.to_bits() == q.to_bits());
+                t.bitwise[!same as usize] += 1;
+            } else {
+                let same = x.iter().zip(y).all(|(p, q)| p == q);
+                t.check(A_BL_EQ, rb, same, &|| base("matmul_blocked", Some(bs), &gb));
+            }
+        }
+    }
+}
+
+/// Non-conformable product through the slice API: op(A) is m×la, op(B) is lb×n, la ≠ lb.
+fn slice_nonconf(t: &mut Tally, rng: &mut Rng, m: usize, la: usize, lb: usize, n: usize, ta: bool, tb: bool) {
+    let (ar, ac) = if ta { (la, m) } else { (m, la) };
+    let (br, bc) = if tb { (n, lb) } else { (lb, n) };
+    let a = rng.ints(ar * ac, 1, 50);
+    let b = rng.ints(br * bc, 1, 50);
+    let rel = if la < lb { R_NC_SMALLER } else { R_NC_LARGER };
+    // the slice-level functions never compare inner dimensions: what happens is decided by the
+    // index arithmetic, which differs between the both-transposed branch and the common loop
+    let r = if ta && tb { R_NC_TT } else { rel };
+    t.case(r);
+    let got = guard(|| matmul(&a, &b, ar, br, ta, tb));
+    t.check(A_MM_REJECTS, r, got.is_err(), &|| {
+        json!({"api": "matmul", "a": jf(&a), "a_stored_shape": [ar, ac], "b": jf(&b), "b_stored_shape": [br, bc], "transpose_a": ta, "transpose_b": tb,
+               "op_a_shape": [m, la], "op_b_shape": [lb, n], "observed": jres(&got), "expected": "panic"})
+    });
+    let bs = rng.usize(1, 2 * m.max(la).max(lb).max(n));
+    t.case(rel);
+    let gb = guard(|| matmul_blocked(&a, &b, ar, br, ta, tb, bs));
+    t.check(A_BL_REJECTS, rel, gb.is_err(), &|| {
+        json!({"api": "matmul_blocked", "a": jf(&a), "a_stored_shape": [ar, ac], "b": jf(&b), "b_stored_shape": [br, bc], "transpose_a": ta, "transpose_b": tb,
+               "bsize": bs, "op_a_shape": [m, la], "op_b_shape": [lb, n], "observed": jres(&gb), "expected": "panic"})
+    });
+}
+
+/// A slice whose length is not a multiple of the row count is no matrix at all.
+fn slice_not_matrix(t: &mut Tally, rng: &mut Rng) {
+    let rows = rng.usize(2, 6);
+    let len = rows * rng.usize(1, 5) + rng.usize(1, rows - 1);
+    let a = rng.ints(len, 1, 50);
+    let b = rng.ints(rows * 2, 1, 50);
+    let left = rng.bool();
+    t.case(R_NC_NOTMAT);
+    let got = guard(|| if left { matmul(&a, &b, rows, rows, true, false) } else { matmul(&b, &a, rows, rows, true, false) });
+    t.check(A_MM_REJECTS, R_NC_NOTMAT, got.is_err(), &|| json!({"api": "matmul", "ragged_len": len, "rows": rows, "ragged_operand_left": left, "observed": jres(&got)}));
+    t.case(R_NC_NOTMAT);
+    let gb = guard(|| if left { matmul_blocked(&a, &b, rows, rows, true, false, 2) } else { matmul_blocked(&b, &a, rows, rows, true, false, 2) });
+    t.check(A_BL_REJECTS, R_NC_NOTMAT, gb.is_err(), &|| json!({"api": "matmul_blocked", "ragged_len": len, "rows": rows, "ragged_operand_left": left, "observed": jres(&gb)}));
+}
+
+fn xtx_case(t: &mut Tally, x: &[f64], k: usize, c: usize, real: bool) {
+    let e = define(x, k, c, true, x, k, c, false, real).unwrap();
+    t.case(R_XTX);
+    t.distinct(&[3, k as u64, c as u64, real as u64], k * c > 1);
+    let got = guard(|| xtx(x, k));
+    let ok = judge(t, A_XTX, R_XTX, &got, None, &e, &|| json!({"api": "xtx", "x": jf(x), "rows": k, "cols": c, "observed": jres(&got), "expected": jf(&e.plain)}));
+    if ok {
+        let v = got.as_ref().unwrap();
+        let sym = (0..c).all(|i| (0..c).all(|j| v[i * c + j].to_bits() == v[j * c + i].to_bits()));
+        t.check(A_XTX_SYM, R_XTX, sym, &|| json!({"api": "xtx", "x": jf(x), "rows": k, "observed": jf(v)}));
+    }
+}
+
+// ---------------------------------------------------------------------------------------------
+// Dot trait
+
+macro_rules! forms {
+    ($S:ty, $T:ty, $O:ty, $f:ident, $form:expr, $a:expr, $b:expr) => {
+        match $form {
+            0 => <$S as Dot<$T, $O>>::$f($a, $b.clone()),
+            1 => <$S as Dot<&$T, $O>>::$f($a, $b),
+            2 => <&$S as Dot<$T, $O>>::$f(&$a, $b.clone()),
+            _ => <&$S as Dot<&$T, $O>>::$f(&$a, $b),
+        }
+    };
+}
+macro_rules! methods {
+    ($S:ty, $T:ty, $O:ty, $meth:expr, $form:expr, $a:expr, $b:expr) => {
+        match $meth {
+            0 => forms!($S, $T, $O, dot, $form, $a, $b),
+            1 => forms!($S, $T, $O, t_dot, $form, $a, $b),
+            2 => forms!($S, $T, $O, dot_t, $form, $a, $b),
+            _ => forms!($S, $T, $O, t_dot_t, $form, $a, $b),
+        }
+    };
+}
+
+const MM: usize = 0;
+const MV: usize = 1;
+const VM: usize = 2;
+const VV: usize = 3;
+
+/// One Dot-trait call. `a` is stored ar×ac (a left Vector is 1×len), `b` is stored br×bc (a right
+/// Vector is len×1). `meth` 0..4 = dot, t_dot, dot_t, t_dot_t; `form` 0..4 = (S,T) (S,&T) (&S,T) (&S,&T).
+fn dot_case(t: &mut Tally, kind: usize, meth: usize, form: usize, a: &[f64], ar: usize, ac: usize, b: &[f64], br: usize, bc: usize, real: bool) {
+    let (ta, tb) = FLAGS[meth];
+    // a transpose request on a promoted vector does nothing
+    let ta_eff = ta && (kind == MM || kind == MV);
+    let tb_eff = tb && (kind == MM || kind == VM);
+    let e = define(a, ar, ac, ta_eff, b, br, bc, tb_eff, real);
+    let r = match &e {
+        // Matrix·Matrix t_dot_t is the only Dot method that reaches the both-transposed branch of matmul
+        Some(e) if kind == MM && meth == 3 => {
+            if e.m == e.l && e.l == e.n {
+                if e.m == 1 {
+                    R_DOT_TT_SCALAR
+                } else {
+                    R_DOT_TT_SQUARE
+                }
+            } else {
+                R_DOT + 3
+            }
+        }
+        Some(_) => R_DOT + kind * 4 + meth,
+        None => R_DOT_NC + kind * 4 + meth,
+    };
+    t.case(r);
+    t.seen[2 + form] += 1;
+    t.distinct(&[4, r as u64, form as u64, ar as u64, ac as u64, br as u64, bc as u64, real as u64], ar * ac > 1 || br * bc > 1);
+    // result as (shape if a Matrix, flat data)
+    let got: Result<(Option<[usize; 2]>, Vec<f64>), String> = match kind {
+        MM => {
+            let ma = Matrix::new(a.to_vec(), ar as i32, ac as i32);
+            let mb = Matrix::new(b.to_vec(), br as i32, bc as i32);
+            guard(|| {
+                let r: Matrix = methods!(Matrix, Matrix, Matrix, meth, form, &ma, &mb);
+                (Some([r.nrows, r.ncols]), r.data.v.clone())
+            })
+        }
+        MV => {
+            let ma = Matrix::new(a.to_vec(), ar as i32, ac as i32);
+            let vb = Vector::new(b.to_vec());
+            guard(|| {
+                let r: Vector = methods!(Matrix, Vector, Vector, meth, form, &ma, &vb);
+                (None, r.v)
+            })
+        }
+        VM => {
+            let va = Vector::new(a.to_vec());
+            let mb = Matrix::new(b.to_vec(), br as i32, bc as i32);
+            guard(|| {
+                let r: Vector = methods!(Vector, Matrix, Vector, meth, form, &va, &mb);
+                (None, r.v)
+            })
+        }
+        _ => {
+            let va = Vector::new(a.to_vec());
+            let vb = Vector::new(b.to_vec());
+            guard(|| {
+                let r: f64 = methods!(Vector, Vector, f64, meth, form, &va, &vb);
+                (None, vec![r])
+            })
+        }
+    };
+    let flat: Result<Vec<f64>, String> = got.as_ref().map(|(_, d)| d.clone()).map_err(|m| m.clone());
+    let shape = got.as_ref().ok().and_then(|(s, _)| *s);
+    let detail = || {
+        json!({"api": format!("{}::{}", KINDS[kind], METHODS[meth]), "ownership_form": FORMS[form],
+               "data_kind": if real { "real (bound gamma_l*sum|a||b|)" } else { "integer (exact)" },
+               "left": jf(a), "left_shape": if kind == VM || kind == VV { json!([ac]) } else { json!([ar, ac]) },
+               "right": jf(b), "right_shape": if kind == MV || kind == VV { json!([br]) } else { json!([br, bc]) },
+               "observed": {"matrix_shape": shape, "result": jres(&flat)},
+               "expected": match &e { Some(e) => json!({"shape": [e.m, e.n], "data": jf(&e.plain)}), None => json!("panic") }})
+    };
+    match &e {
+        None => {
+            t.check(A_DOT_REJECTS, r, flat.is_err(), &detail);
+        }
+        Some(e) => {
+            judge(t, A_DOT, r, &flat, shape, e, &detail);
+        }
+    }
+}
+
+/// All Dot-trait calls that belong to the cube point (m, l, n): Matrix·Matrix always, Matrix·Vector
+/// when n = 1, Vector·Matrix when m = 1, Vector·Vector when m = n = 1.
+fn dot_point(t: &mut Tally, rng: &mut Rng, m: usize, l: usize, n: usize, forms: &[usize], real: bool, nonconf: bool, one_method: bool) {
+    let fill = |rng: &mut Rng, k: usize| -> Vec<f64> {
+        if real {
+            (0..k).map(|_| rng.normal() * 3.0 + 0.25).collect()
+        } else {
+            rng.ints(k, -50, 50)
+        }
+    };
+    for meth in 0..4 {
+        if one_method && meth != (m + l + n) % 4 {
+            continue; // Miri smoke: one of the four methods per point, rotating
+        }
+        let (ta, tb) = FLAGS[meth];
+        let (ar, ac) = if ta { (l, m) } else { (m, l) };
+        for &form0 in forms {
+            // with a single form per point, rotate it over the methods
+            let form = if forms.len() == 1 { (form0 + meth) % 4 } else { form0 };
+            let (br, bc) = if tb { (n, l) } else { (l, n) };
+            let a = fill(rng, ar * ac);
+            let b = fill(rng, br * bc);
+            dot_case(t, MM, meth, form, &a, ar, ac, &b, br, bc, real);
+            if n == 1 {
+                let v = fill(rng, l);
+                dot_case(t, MV, meth, form, &a, ar, ac, &v, l, 1, real);
+            }
+            if m == 1 {
+                let v = fill(rng, l);
+                dot_case(t, VM, meth, form, &v, 1, l, &b, br, bc, real);
+            }
+            if m == 1 && n == 1 {
+                let (x, y) = (fill(rng, l), fill(rng, l));
+                dot_case(t, VV, meth, form, &x, 1, l, &y, l, 1, real);
+            }
+        }
+        if nonconf {
+            // one ownership form per method and point is enough: the shape assert does not depend on it
+            let form = (m + l + n + meth) % 4;
+            let l2 = if rng.bool() || l == 1 { l + rng.usize(1, 3) } else { l - 1 };
+            let (br, bc) = if tb { (n, l2) } else { (l2, n) };
+            let a = fill(rng, ar * ac);
+            let b = fill(rng, br * bc);
+            dot_case(t, MM, meth, form, &a, ar, ac, &b, br, bc, real);
+            if n == 1 {
+                let v = fill(rng, l2);
+                dot_case(t, MV, meth, form, &a, ar, ac, &v, l2, 1, real);
+            }
+            if m == 1 {
+                let v = fill(rng, l);
+                dot_case(t, VM, meth, form, &v, 1, l, &b, br, bc, real);
+            }
+            if m == 1 && n == 1 {
+                let (x, y) = (fill(rng, l), fill(rng, l2));
+                dot_case(t, VV, meth, form, &x, 1, l, &y, l2, 1, real);
+            }
+        }
+    }
+}
+
+fn cube_point(cfg: &Cfg, t: &mut Tally, rng: &mut Rng, m: usize, l: usize, n: usize, fills: usize) {
+    let maxd = m.max(l).max(n);
+    for _ in 0..fills {
+        for (fi, &(ta, tb)) in FLAGS.iter().enumerate() {
+            let (ar, ac) = if ta { (l, m) } else { (m, l) };
+            let (br, bc) = if tb { (n, l) } else { (l, n) };
+            let a = rng.ints(ar * ac, -50, 50);
+            let b = rng.ints(br * bc, -50, 50);
+            let bsizes: Vec<usize> = if cfg.miri() {
+                // smoke (a library call costs ~15 ms there): two of the edge-handling classes of the
+                // tile loops (1, small non-divisor, = dim, > dim), rotating over the points
+                let mut v = vec![1 + (m + l + n + fi) % 3, maxd + (m + l + n + fi) % 2 * maxd];
+                v.sort_unstable();
+                v.dedup();
+                v
+            } else {
+                (1..=2 * maxd).collect()
+            };
+            slice_case(t, &a, ar, ac, &b, br, bc, ta, tb, &bsizes, false);
+        }
+        if n == 1 {
+            let x = rng.ints(m * l, -50, 50);
+            xtx_case(t, &x, m, l, false);
+        }
+        if cfg.miri() {
+            // one ownership form and one method per point (rotating), all four + non-conformable on three points
+            let nc = (m, l, n) == (2, 3, 1) || (m, l, n) == (1, 2, 3) || (m, l, n) == (1, 3, 1);
+            let all = nc || (m == l && l == n); // all-equal points: the both-transposed branch must be among the methods
+            dot_point(t, rng, m, l, n, &[(m + 2 * l + 3 * n) % 4], false, nc, !all);
+        } else {
+            dot_point(t, rng, m, l, n, &[0, 1, 2, 3], false, true, false);
+        }
+    }
+}
+
+fn random_nonconf(cfg: &Cfg, t: &mut Tally, rng: &mut Rng, i: usize) {
+    if i % 3 == 0 {
+        slice_not_matrix(t, rng);
+    } else {
+        // larger random non-conformable shapes
+        let hi = if cfg.miri() { 4 } else { 24 };
+        let (m, n, la) = (rng.usize(1, hi), rng.usize(1, hi), rng.usize(1, hi));
+        let mut lb = rng.usize(1, hi);
+        if lb == la {
+            lb += 1;
+        }
+        let (ta, tb) = FLAGS[rng.usize(0, 3)];
+        slice_nonconf(t, rng, m, la, lb, n, ta, tb);
+    }
+}
+
+fn random_real(cfg: &Cfg, t: &mut Tally, rng: &mut Rng, i: usize) {
+    let hi = if cfg.miri() { 5 } else { 64 };
+    let dim = |rng: &mut Rng| -> usize {
+        match rng.usize(0, 9) {
+            0 => 1,
+            1 => *rng.choose(&[7usize, 8, 9, 15, 16, 17, 31, 32, 33, 63, 64]).min(&hi),
+            2 | 3 => rng.usize(1, 8.min(hi)),
+            _ => rng.usize(1, hi),
+        }
+    };
+    let (mut m, mut l, mut n) = (dim(rng), dim(rng), dim(rng));
+    if (i / 4) % 4 == 0 {
+        // all-equal dimensions: the only place where the both-transposed branch returns the right shape
+        m = m.max(2);
+        l = m;
+        n = m;
+    }
+    let (ta, tb) = FLAGS[i % 4];
+    let (ar, ac) = if ta { (l, m) } else { (m, l) };
+    let (br, bc) = if tb { (n, l) } else { (l, n) };
+    let a: Vec<f64> = (0..ar * ac).map(|_| rng.normal() * 3.0 + 0.25).collect();
+    let b: Vec<f64> = (0..br * bc).map(|_| rng.normal() * 3.0 + 0.25).collect();
+    let maxd = m.max(l).max(n);
+    let mut bsizes = vec![rng.usize(1, 2 * maxd), rng.usize(1, maxd), rng.usize(1, 8.min(2 * maxd))];
+    if cfg.thorough() && i % 50 == 0 {
+        bsizes = (1..=2 * maxd).collect();
+    }
+    if cfg.miri() {
+        bsizes.truncate(1);
+    }
+    slice_case(t, &a, ar, ac, &b, br, bc, ta, tb, &bsizes, true);
+    let (k, c) = (dim(rng), dim(rng));
+    let x: Vec<f64> = (0..k * c).map(|_| rng.normal() * 3.0 + 0.25).collect();
+    xtx_case(t, &x, k, c, true);
+    // Dot trait on large shapes, real and integer data, with a vector on either side now and then
+    let (dm, dn2) = match i % 5 {
+        0 => (m, 1),
+        1 => (1, n),
+        2 => (1, 1),
+        _ => (m, n),
+    };
+    let form = rng.usize(0, 3);
+    dot_point(t, rng, dm, l, dn2, &[form], true, false, cfg.miri());
+    if !cfg.miri() {
+        // integer data on the same large shape (exact oracle beyond the cube)
+        let ai = rng.ints(ar * ac, -50, 50);
+        let bi = rng.ints(br * bc, -50, 50);
+        slice_case(t, &ai, ar, ac, &bi, br, bc, ta, tb, &bsizes[..1], false);
+        dot_point(t, rng, dm, l, dn2, &[(form + 1) % 4], false, i % 4 == 0, false);
+    }
+}
+
+pub fn run(cfg: &Cfg, rep: &mut Report) {
+    let d = if cfg.miri() { 4 } else { 9 };
+    let lean = cfg.miri();
+    rep.rule = format!(
+        "exhaustive cube: every (m,l,n) in 1..={d}^3 x 4 transpose-flag combinations, integer entries in [-50,50], stored shapes passed to the slice API; \
+         per point: matmul, matmul_blocked at every block size 1..=2*max(m,l,n), xtx (n=1), all 4 Dot methods x 4 ownership forms for Matrix.Matrix \
+         (+ Matrix.Vector when n=1, Vector.Matrix when m=1, Vector.Vector when m=n=1) and one non-conformable variant per method; \
+         then non-conformable slice products (inner dimensions 1..=5, la != lb) and random real-valued shapes up to 64 \
+         (Miri smoke: 2 block sizes, 1 Dot method and 1 ownership form per point, rotating). \
+         non-trivial = m*l*n > 1; distinct by (api, regime, shapes, flags, block size / ownership form, data kind)"
+    );
+    rep.assume("entries are finite; integer entries |a| <= 50 with inner dimension <= 64 so every partial sum is exact; real entries are N(0.25, 3^2) (no overflow/underflow in products)");
+    rep.assume("block size 0 is outside the property ('every block size >= 1')");
+    rep.assume("zero-sized dimensions are outside the quantifier (1..=9, 1..=64)");
+    rep.exhaustive = Some(!cfg.lite);
+
+    let points: Vec<(usize, usize, usize)> = (1..=d).flat_map(|m| (1..=d).flat_map(move |l| (1..=d).map(move |n| (m, l, n)))).collect();
+    let fills = if cfg.lite { 1 } else { cfg.pick(2, 10, 1) };
+    let mut nc: Vec<(usize, usize, usize, usize, bool, bool)> = Vec::new();
+    let (dn, dl) = if cfg.miri() { (1, 2) } else { (3, 5) };
+    for m in 1..=dn {
+        for n in 1..=dn {
+            for la in 1..=dl {
+                for lb in 1..=dl {
+                    if la != lb {
+                        for &(ta, tb) in &FLAGS {
+                            nc.push((m, la, lb, n, ta, tb));
+                        }
+                    }
+                }
+            }
+        }
+    }
+    let n_rand_nc = cfg.pick(40, 400, 2);
+    let n_real = cfg.pick(200, 5000, 1);
+
+    if cfg.miri() {
+        // one case, one tally, one flush: every `Report` map operation costs ~10 ms under Miri
+        par_cases(cfg, rep, 1, 1, |_i, rng, rep| {
+            let mut t = Tally::new(lean);
+            for &(m, l, n) in &points {
+                cube_point(cfg, &mut t, rng, m, l, n, fills);
+            }
+            for &(m, la, lb, n, ta, tb) in &nc {
+                slice_nonconf(&mut t, rng, m, la, lb, n, ta, tb);
+            }
+            for i in 0..n_rand_nc {
+                random_nonconf(cfg, &mut t, rng, i);
+            }
+            for i in 0..n_real {
+                random_real(cfg, &mut t, rng, 3 + 13 * i); // flags TT (square), then NN
+            }
+            t.flush(rep);
+        });
+    } else {
+        // ---- exhaustive cube ---------------------------------------------------------------
+        par_cases(cfg, rep, 1, points.len(), |i, rng, rep| {
+            let mut t = Tally::new(lean);
+            let (m, l, n) = points[i];
+            cube_point(cfg, &mut t, rng, m, l, n, fills);
+            t.flush(rep);
+        });
+        // ---- non-conformable slice products ------------------------------------------------
+        par_cases(cfg, rep, 2, nc.len(), |i, rng, rep| {
+            let mut t = Tally::new(lean);
+            let (m, la, lb, n, ta, tb) = nc[i];
+            slice_nonconf(&mut t, rng, m, la, lb, n, ta, tb);
+            t.flush(rep);
+        });
+        par_cases(cfg, rep, 3, n_rand_nc, |i, rng, rep| {
+            let mut t = Tally::new(lean);
+            random_nonconf(cfg, &mut t, rng, i);
+            t.flush(rep);
+        });
+        // ---- random real-valued shapes up to 64 --------------------------------------------
+        par_cases(cfg, rep, 4, n_real, |i, rng, rep| {
+            let mut t = Tally::new(lean);
+            random_real(cfg, &mut t, rng, i);
+            t.flush(rep);
+        });
+    }
+
+    // ---- coverage that the quantifier names -------------------------------------------------
+    for r in 0..R_DOT_NC + 16 {
+        if r == R_DOT_TT_SCALAR {
+            continue; // a single point of the cube, nothing the quantifier names separately
+        }
+        rep.require(&regime_name(r), 1);
+    }
+    for s in SEEN {
+        rep.require(s, 1);
+    }
 }
